@@ -251,6 +251,7 @@ type c08World struct {
 	// prov is a catalogue written as a PO file and loaded by the library's own loader (locale fr only: fr_CA, fr-BE ...
 	// reach it through the locale fallback); nil when the bundle has no message a PO file can carry
 	prov soymsg.Provider
+	jsgen *soyjs.Generator // one generator for the whole history (and for all goroutines of C09)
 }
 
 type memOpener map[string]string
@@ -313,7 +314,7 @@ func newWorld(files []srcFile, globals map[string]ref.Value, datas []map[string]
 	if err != nil {
 		return nil, err
 	}
-	w := &c08World{reg: reg, tofu: soyhtml.NewTofu(reg), msgs: translationsWithPlurals(reg), prov: realCatalogue(reg)}
+	w := &c08World{reg: reg, tofu: soyhtml.NewTofu(reg), msgs: translationsWithPlurals(reg), prov: realCatalogue(reg), jsgen: soyjs.NewGenerator(reg)}
 	for _, d := range datas {
 		w.datas = append(w.datas, toDataMap(d))
 	}
@@ -346,7 +347,7 @@ func (w *c08World) exec(o c08Op) (out string, err error) {
 	}
 	sf := w.reg.SoyFiles[o.file%len(w.reg.SoyFiles)]
 	if o.viaGen {
-		err = soyjs.NewGenerator(w.reg).WriteFile(&buf, sf.Name)
+		err = w.jsgen.WriteFile(&buf, sf.Name)
 		return buf.String(), err
 	}
 	opts := soyjs.Options{}
@@ -379,6 +380,10 @@ func c08History(r *fw.Rand, tier, config string, nops int) (files []srcFile, pro
 		files = append(files, srcFile{"custom.soy", customFile})
 	}
 	files = append(files, srcFile{"callforms.soy", callFormsFile})
+	// two files laid out alike byte for byte, whose print commands sit at the same offsets and differ only in their
+	// directive arguments: what a command does is a matter of the command, not of where it sits
+	files = append(files, srcFile{"twina.soy", "{namespace twa}\n/** */\n{template .t}\n{'abcdefgh'|truncate:3,false}{'abcdefgh'|truncate:4,false}{'<b>'|escapeHtml}\n{/template}\n"},
+		srcFile{"twinb.soy", "{namespace twb}\n/** */\n{template .t}\n{'abcdefgh'|truncate:5,false}{'abcdefgh'|truncate:2,false}{'<b>'|noAutoescape}\n{/template}\n"})
 	datas = []map[string]ref.Value{prog.Data, g.NewData(prog), {}}
 	for k, d := range datas[:2] {
 		if _, has := d["m"]; !has {
@@ -406,7 +411,7 @@ func c08History(r *fw.Rand, tier, config string, nops int) (files []srcFile, pro
 	if config == "custom" {
 		names = append(names, "cust.t")
 	}
-	names = append(names, "pr.callforms", "pr.callforms", "pr.dirforms", "pr.funcforms", "pr.pluralforms", "pr.pluralforms", "pr.samewords1", "pr.samewords2", "pr.samewords2", "pr.samewords1")
+	names = append(names, "pr.callforms", "pr.callforms", "pr.dirforms", "pr.funcforms", "pr.pluralforms", "pr.pluralforms", "pr.samewords1", "pr.samewords2", "pr.samewords2", "pr.samewords1", "twa.t", "twb.t", "twb.t", "twa.t")
 	for k := 0; k < nops; k++ {
 		if r.P(1, 4) {
 			ops = append(ops, c08Op{kind: "js", file: r.Intn(64), es6: r.Bool(), msgs: r.P(1, 3), viaGen: r.P(1, 4)})
@@ -484,6 +489,22 @@ func init() {
 				} else if err != nil {
 					failing++
 					ctx.Obs("failing_renders", 1)
+				}
+				if op.kind == "render" && (op.tmpl == "twa.t" || op.tmpl == "twb.t") && err == nil {
+					// known by construction: three literals under three directives, then the obligatory ones of this configuration
+					bang := ""
+					if c08Config == "oblig1" || c08Config == "oblig2" {
+						bang = "!"
+					}
+					want := "abc" + bang + "abcd" + bang + "&lt;b&gt;" + bang
+					if op.tmpl == "twb.t" {
+						want = "abcde" + bang + "ab" + bang + "<b>" + bang
+					}
+					ctx.Obs("twin_file_renders", 1)
+					if out != want {
+						return fw.Result{Verdict: fw.Violated, Key: "twin-file-output-wrong", Case: map[string]interface{}{"files": files, "history": hist, "config": c08Config},
+							Msg: fmt.Sprintf("operation %d (%s) [config %s] returned %q; the template prints three literals under fixed directives and must give %q", k, op, c08Config, out, want)}
+					}
 				}
 				for x := 0; x < 4; x++ {
 					if before[x] != after[x] {
